@@ -20,7 +20,7 @@ LAYER_A = ['delete_fields', 'select_fields', 'add_field', 'filter_rows', 'dedupl
 def base_resource(rng, n):
     rows = []
     for i in range(n):
-        rows.append({'id': i, 'grp': rng.choice(['a', 'b', 'c']), 'val': rng.choice([None, 1, 2, 5, -3]),
+        rows.append({'id': i, 'grp': rng.choice(['a', 'b', 'c']), 'val': rng.choice([None, 1, 2, 5, -3, 4, 8]),
                      'amt': decimal.Decimal(rng.choice(['1.5', '2', '-0.25'])), 'flag': rng.choice([True, False, None]),
                      'day': datetime.date(2020, 1, 1 + i % 28), 'arr': rng.choice([[1, 2], [], ['x']])})
     return rows
@@ -91,6 +91,7 @@ def propose(rng, desc, counter):
         a, b = desc['resources'][0], desc['resources'][1]
         fa, fb = dict(fields_of(desc, 0)), dict(fields_of(desc, 1))
         if 'id' in fa and 'id' in fb:
+            jkey = ['grp'] if (fa.get('grp') == 'string' and fb.get('grp') == 'string' and rng.random() < 0.6) else ['id']
             spec = {}
             if fa.get('val') == 'integer':
                 agg = rng.choice(['sum', 'avg', 'median', 'max', 'min', 'first', 'last', 'count', 'any', 'set', 'array'])
@@ -100,7 +101,7 @@ def propose(rng, desc, counter):
             if spec:
                 mode = rng.choice(['inner', 'half-outer', 'full-outer'])
                 sd = rng.random() < 0.5
-                return 'join:%s' % mode, lambda: DF.join(a['name'], ['id'], b['name'], ['id'], copy.deepcopy(spec), mode=mode, source_delete=sd)
+                return 'join:%s' % mode, lambda: DF.join(a['name'], list(jkey), b['name'], list(jkey), copy.deepcopy(spec), mode=mode, source_delete=sd)
     if kind == 'duplicate':
         return 'duplicate', lambda: DF.duplicate(source=rname, target_name=fresh, target_path=fresh + '.csv',
                                                  duplicate_to_end=rng.random() < 0.5)
@@ -195,10 +196,20 @@ def pipeline_case(ctx, rng, idx):
         try:
             res, dp, _ = run([])
         except Exception as e:  # noqa
-            rep.case('pipeline', case, nontrivial=False)
             cause = getattr(e, 'cause', e)
-            rep.fail('well-typed-pipeline-fails:%s:%s' % (label.split(':')[0], type(cause).__name__), case, repr(e)[:400])
-            return
+            from dataflows.base.schema_validator import ValidationError
+            from tableschema.exceptions import TableSchemaException
+            if isinstance(cause, (ValidationError, TableSchemaException)):
+                # the rows no longer agree with the descriptor: what C02 is about
+                rep.case('pipeline', case, nontrivial=False)
+                rep.fail('well-typed-pipeline-fails:%s:%s' % (label.split(':')[0], type(cause).__name__), case, repr(e)[:400])
+                return
+            # the proposed step rejects this package for its own reasons (missing key, its own assertion): not a
+            # well-typed continuation; drop the proposal
+            rep.hist('proposal_discarded', '%s:%s' % (label.split(':')[0], type(cause).__name__))
+            steps.pop()
+            labels.pop()
+            continue
     case = {'pipeline': labels[:], 'rows_per_source': [len(s) for s in sources]}
     rep.case('pipeline', case, nontrivial=len(labels) > 1)
     rep.hist('pipeline_len', len(labels))
